@@ -18,6 +18,7 @@ tie: T-acc — the observed execution order of every scheduler (traced while the
 """
 import itertools
 from common import *
+import functools
 import sched_common as sc
 import rtlfoot
 
@@ -66,6 +67,43 @@ def check_design(ctx, g, cls, k, cycles, nsimple, nforced, ffl, coq_cases, coq_m
       if d:
         ctx.violation(f'C01:schedule-dependent:{g.name}:{sch}', f'design {g.name}: signals differ between {base_name} and {sch}#{i} at step {d[0]} ({"eval" if d[0]%2==0 else "tick"} of cycle {d[0]//2}): {d[2]}',
                       {'design_source': src, 'schedulers': [base_name, f'{sch}#{i}'], 'input_seed': seed, 'step': d[0], 'signals': d[2]})
+  # EVERY linear extension of pymtl3's constraint graph is a legal schedule (SimpleSchedulePass picks one at random), so a
+  # writer/reader pair that shares a bit (declared footprints mapped to bit intervals here, plus reads/writes discovered
+  # by running the blocks) but that the graph leaves unordered gets its own witness: the linear extension that runs
+  # the reader first is simulated and compared with the first variant
+  topx = sc.build(cls, 'forced', rng=random.Random(1), seed=0); fpx = sc.Footprints(topx)
+  reach = {a: set() for a in range(len(fpx.comb))}
+  for (a, b) in fpx.edges: reach[a].add(b)
+  ch = True
+  while ch:
+    ch = False
+    for a in reach:
+      new = (set().union(*[reach[x] for x in reach[a]]) - reach[a]) if reach[a] else set()
+      if new: reach[a] |= new; ch = True
+  dynr, dynw = {}, {}
+  if len(fpx.comb) <= 14 or any(f.startswith(('func-', 'param-')) for f in g.features):
+    topx.sim_reset()
+    dynr = {fpx.cid[b]: v for b, v in sc.dynamic_reads(topx, fpx, random.Random(seed), trials=2).items()}
+    dynw = {fpx.cid[b]: v for b, v in sc.dynamic_writes(topx, fpx, random.Random(seed), trials=2).items()}
+    ctx.hist['dynamic-footprint-discovery'] = ctx.hist.get('dynamic-footprint-discovery', 0) + 1
+  pairs = []
+  for a, ba in enumerate(fpx.comb):
+    Wr = list(fpx.writes[ba]) + [(r_, k_, k_ + 1) for (r_, k_) in dynw.get(a, ())]
+    for b, bb in enumerate(fpx.comb):
+      if a == b or b in reach[a] or a in reach[b]: continue
+      Rd = list(fpx.reads[bb]) + [(r_, 0, 1 << 20) for r_ in dynr.get(b, ())]
+      if any(r1 == r2 and l1 < h2 and l2 < h1 for (r1, l1, h1) in Wr for (r2, l2, h2) in Rd): pairs.append((a, b))
+  for (a, b) in pairs[:3]:
+    ctx.count((g.name, 'unordered-pair', a, b), True, cls='unordered-overlapping-pair')
+    top = sc.build(cls, 'forced', rng=random.Random(seed), seed=0, prefer=(b, a))
+    if top is None: continue
+    tr = sc.simulate(top, g, seed, cycles)
+    d = sc.first_diff(base, tr)
+    if d:
+      ctx.violation(f'C01:schedule-dependent:{g.name}:unordered-pair', f'design {g.name}: block {fpx.comb[a].__name__} writes bits that {fpx.comb[b].__name__} reads but pymtl3\'s constraint graph does not order them; the legal schedule that runs the reader first differs from {base_name} at step {d[0]}: {d[2]}',
+                    {'design_source': src, 'writer': fpx.comb[a].__name__, 'reader': fpx.comb[b].__name__, 'schedule': [x.__name__ for x in top._sched.update_schedule if hasattr(x, '__name__')], 'input_seed': seed, 'step': d[0], 'signals': d[2]})
+    else:
+      ctx.hist['unordered-pair-without-visible-effect'] = ctx.hist.get('unordered-pair-without-visible-effect', 0) + 1
   # reference trajectory ref(D,I,t): the dataflow equations evaluated by the oracle (each update_ff block alone on the
   # pre-edge state, every double-buffered leaf flipped by the oracle itself, comb blocks to their fixed point)
   from c07 import oracle_tick
@@ -168,6 +206,13 @@ def run(ctx):
       cls, mod = sc.load_source(ctx, g.source(), g.name)
       distinct_orders += check_design(ctx, g, cls, k, cycles=6 if quick else 12, nsimple=2 if quick else 4,
                                       nforced=3 if quick else 8, ffl=4 if quick else 24, coq_cases=coq_cases, coq_meta=coq_meta)
+      if g.param:
+        # the same class elaborated again in this process with another construct-time parameter (other block bodies)
+        g.name = f'D{k}_p1'
+        cls1 = functools.partial(cls, 1); cls1.__name__ = cls.__name__
+        src0 = g.source(); g.source = lambda src0=src0: src0 + '\n# elaborated as ' + cls.__name__ + '( 1 ) after ' + cls.__name__ + '( 0 ) in the same process\n'
+        distinct_orders += check_design(ctx, g, cls1, k, cycles=6 if quick else 12, nsimple=1 if quick else 2,
+                                        nforced=2 if quick else 6, ffl=2 if quick else 8, coq_cases=coq_cases, coq_meta=coq_meta)
     except Exception as e:
       ctx.violation(f'C01:design-crash:{g.name}:{type(e).__name__}', f'generated acyclic design {g.name} could not be simulated: {type(e).__name__}: {str(e)[:200]}',
                     {'design_source': g.source(), 'traceback': traceback.format_exc()[-2000:]})
